@@ -20,10 +20,12 @@ GEN = []
 SOURCES = ['celt/entenc.c', 'celt/entdec.c', 'celt/entcode.c', 'celt/entcode.h', 'celt/entenc.h', 'celt/entdec.h',
            'celt/mfrngcod.h', 'celt/ecintrin.h', 'celt/arch.h']
 REQUIRED_THEOREMS = ['OpusProps.C08.rng_normalised', 'OpusProps.C08.tell_frac_bounds', 'OpusProps.C08.tell_frac_formula',
-                     'OpusProps.C08.tell_monotone', 'OpusProps.C08.decode_encode_partial', 'OpusProps.C08.lockstep_rng',
-                     'OpusProps.C08.done_within_budget', 'OpusProps.C08.outside_untouched']
-UNPROVED = ['decode_encode (full statement: operation lists that contain ec_enc_patch_initial_bits)',
-            'patch_initial_bits_spec']
+                     'OpusProps.C08.tell_monotone', 'OpusProps.C08.decode_encode', 'OpusProps.C08.lockstep_rng',
+                     'OpusProps.C08.decode_encode_patched', 'OpusProps.C08.done_within_budget',
+                     'OpusProps.C08.outside_untouched']
+UNPROVED = ['lockstep_symbols (Stage A variant of lockstep_rng that assumes only "the decoder returned the encoded symbol" '
+            'instead of "ec_enc_done succeeded": proved in OpusProofs/RangeCoderLockstep.lean for every operation except '
+            'ec_dec_uint, whose case does not pass the kernel in reasonable time; lockstep_rng covers the property clause)']
 RULE = ('op sequences of length 1..4000 over all nine operation kinds (ec_encode, ec_encode_bin, ec_enc_bit_logp, ec_enc_icdf, '
         'ec_enc_icdf16, ec_enc_uint, ec_enc_bits, ec_enc_patch_initial_bits, ec_enc_shrink) drawn from the seed by a '
         'profile-driven generator (all-kinds mix, mostly raw bits, mostly symbols, mostly uint, top-of-range symbols with '
@@ -36,10 +38,11 @@ RULE = ('op sequences of length 1..4000 over all nine operation kinds (ec_encode
         'distinct: tie = (generator profile, encoder outcome ok/err) plus the tell_frac/ilog tables, search = (profile, '
         'buffer-size class, outcome, length class) combinations actually observed')
 NOT_COVERED = [
-    'ec_enc_patch_initial_bits in the round-trip clause is checked for patch-style streams only (first op '
-    'ec_encode_bin(fl,fl+1,n) with n<=8, patches of the same n): a patch of bits that were not coded with a power-of-two '
-    'probability has no defined decoded meaning (entenc.h); other sequences containing a patch are still compared state by '
-    'state against the model and checked for P2..P4',
+    'ec_enc_patch_initial_bits in the round-trip clause is proved (decode_encode_patched) and searched for patch-style '
+    'streams only (first op ec_encode_bin(fl,fl+1,n) with 1<=n<=8, patches of the same n): a patch of bits that were not '
+    'coded with a power-of-two probability has no defined decoded meaning (entenc.h); other sequences containing a patch are '
+    'still compared state by state against the model, checked for P2..P4 and covered by outside_untouched; the SILK usage '
+    '(first op ec_enc_icdf with a 2^-k symbol, decoder reads k separate bits) is the same interval but a different call sequence',
     'ec_laplace / cwrs / SILK symbol layers built on top of the coder (C09, C10, ...)',
     'the non-table `#else` variant of ec_tell_frac and USE_SMALL_DIV_TABLE (not compiled on this target)',
     'streams longer than 4000 operations and buffers larger than 1275 bytes (the Lean theorems are not length-bounded; '
@@ -52,6 +55,9 @@ ASSUMPTIONS = [
     'the decoder is given exactly the first `storage` bytes the encoder finished (exact-size heap block under ASan) and '
     'mirrors the encoder call sequence with the same tables and parameters',
     'the number of carry-pending 0xFF bytes stays below 2^32 (ext counter), guaranteed by buffer sizes <= 1275',
+    'theorem hypotheses: nbits_total (a C int) stays below 2^32 (decode_encode, lockstep_rng, decode_encode_patched; '
+    'derived from size <= 5*10^8 in done_within_budget); the caller buffer holds bytes (values < 256) and is at least '
+    '`size` long; decode_encode_patched additionally assumes a non-empty final buffer',
 ]
 LEVEL_TEXT = ('proof about an executable Lean transcription of entenc.c / entdec.c / entcode.c (struct ec_ctx field by field, '
               'opus_uint32 arithmetic modulo 2^32 made explicit), tied to the code by a differential run that compares the '
